@@ -124,4 +124,57 @@ theorem schedule_independent {α : Type} (param : Bool) (jobs : List Nat) (hnd :
     (a1.1.wr_sound j r ((mem_fileWrites _ r j).mp hj)).2.2
   exact hdisj b (m b hb) b' (m b' hb')
 
+/-! ### The shared model object (round 12) -/
+
+/-- **A model that stores nothing is interleaving-independent**: whatever the order of the blocks' `fit` and `apply` steps - any
+    number of other blocks fitted between a block's own fit and its correction - every corrected block is what the model computes
+    for that block alone from the initial state -/
+theorem stateless_compute_interleaving_independent {σ P V : Type} (m : SharedModel σ P V) (h : m.Stateless) (s0 : σ)
+    (es : List CEv) (ps : Nat → Option P) (hps : ∀ k p, ps k = some p → p = (m.fit s0 k).2) :
+    ∀ jv ∈ runCompute m s0 ps es, jv.2 = m.apply s0 jv.1 (m.fit s0 jv.1).2 := by
+  induction es generalizing ps with
+  | nil => intro jv hjv; simp [runCompute] at hjv
+  | cons e es ih =>
+    cases e with
+    | fit j =>
+      intro jv hjv
+      simp only [runCompute] at hjv
+      rw [h s0 j] at hjv
+      refine ih _ ?_ jv hjv
+      intro k p hk
+      by_cases hkj : k = j
+      · subst hkj; simp at hk; exact hk.symm
+      · simp [hkj] at hk; exact hps k p hk
+    | apply j =>
+      intro jv hjv
+      simp only [runCompute] at hjv
+      cases hp : ps j with
+      | none => rw [hp] at hjv; exact ih ps hps jv hjv
+      | some p =>
+        rw [hp] at hjv
+        rcases List.mem_cons.mp hjv with rfl | hmem
+        · simp only; rw [hps j p hp]
+        · exact ih ps hps jv hmem
+
+/-- the pattern of seeded change C04-k: `fit` notes on the object whether the block it just fitted was empty (here: block 1 is),
+    `apply` returns a nodata block (0) when the note is set and the correction (`p + 1`) otherwise -/
+def notingModel : SharedModel Bool Nat Nat where
+  fit := fun _ j => (j == 1, j)
+  apply := fun s _ p => if s then 0 else p + 1
+
+/-- **A model that stores into itself is not**: block 0 is corrected properly when its own steps are adjacent, and comes out as
+    nodata when block 1 is fitted in between - two schedules of the same two blocks, two results -/
+theorem noting_model_schedule_dependent :
+    runCompute notingModel false (fun _ => none) [.fit 0, .apply 0, .fit 1, .apply 1] = [(0, 1), (1, 0)] ∧
+    runCompute notingModel false (fun _ => none) [.fit 0, .fit 1, .apply 0, .apply 1] = [(0, 0), (1, 0)] ∧
+    ¬ notingModel.Stateless := by
+  refine ⟨by decide, by decide, ?_⟩
+  intro h
+  have := h false 1
+  simp [notingModel] at this
+
+/-- non-vacuity: a model that only reads its configuration is stateless -/
+example : (⟨fun s j => (s, j + s), fun s _ p => p * s⟩ : SharedModel Nat Nat Nat).Stateless := fun _ _ => rfl
+
+
 end Homonim
